@@ -556,6 +556,38 @@ def aff_of_case(case):
     return dict(A=A_of(case), kind=case['kind'], rot=case['rot'], w=case['w'], refl=case['refl'])
 
 
+def apply_edit(img, edit):
+    """Modify an image after construction (or after loading): in-place edits of img.affine, header
+    edits, image-level set_sform / set_qform."""
+    k = edit['kind']
+    with warnings.catch_warnings():
+        warnings.simplefilter('ignore')
+        if k == 'aff_all':
+            img.affine[:] = np.array([float.fromhex(x) for x in edit['A1']]).reshape(4, 4)
+        elif k == 'aff_t':
+            img.affine[0, 3] += edit['dx']
+            img.affine[2, 3] -= 2 * edit['dx']
+        elif k == 'aff_col':
+            img.affine[:3, 1] *= edit['f']
+        elif k == 'hdr_zooms':
+            z = list(img.header.get_zooms())
+            z[:3] = edit['z']
+            img.header.set_zooms(z)
+        elif k == 'hdr_pxyz':
+            img.header['Pxyz_c'] = edit['c']
+        elif k == 'set_sform':
+            img.set_sform(np.array([float.fromhex(x) for x in edit['A1']]).reshape(4, 4), code=edit['code'])
+        elif k == 'set_qform':
+            img.set_qform(np.array([float.fromhex(x) for x in edit['A1']]).reshape(4, 4), code=edit['code'])
+        else:
+            raise ValueError(k)
+
+
+def A_eff(case, o):
+    """The affine the image had when it was saved."""
+    return o['at_save'] if o.get('at_save') is not None else A_of(case)
+
+
 # ----------------------------------------------------------------------------- NIfTI image scenario
 def obs_nifti(case):
     """Run the implementation on one NIfTI constructor/save/load case.  Returns observables."""
@@ -601,6 +633,19 @@ def obs_nifti(case):
         o.update(c1=c1, c2=c2, best0=best0, expected=E, hashdr=hdr is not None)
         try:
             img = K(data, A, header=hdr)
+            if case.get('edit'):
+                if case['edit'].get('reload_first'):
+                    img, _ = save_load(K, img)
+                apply_edit(img, case['edit'])
+                A = np.array(img.affine)
+                o['at_save'] = A
+                h0 = img.header
+                o['state0'] = nifti_hdr_state(h0, ver)
+                o['be'] = h0.endianness == '>'
+                best0 = np.array(h0.get_best_affine())
+                E = roundtrip_exact(A, ver)
+                c1 = my_allclose(A, best0, rtol, atol)
+                o.update(c1=c1, c2=c1 if c1 else my_allclose(A, E, rtol, atol), best0=best0, expected=E, hashdr=True)
             loaded, raw = save_load(K, img, case.get('via'))
         except (ValueError, HeaderDataError) as e:
             o['refused'] = 'save_load:' + type(e).__name__ + ':' + str(e)[:40]
@@ -661,7 +706,9 @@ def pred_nifti(case, o):
 def lines_nifti(cid, case, o, ker):
     """Model lines + expected canonical strings for one NIfTI case."""
     ver = o['ver']
-    A = A_of(case)
+    A = A_eff(case, o)
+    if ker is None:
+        ker = kernel_oracle(A)
     st = o['state0']
     a12 = [f64bits(x) for x in A[:3, :].ravel()]
     tabvals = list(A[:3, :].ravel()) + ker['zooms'] + ker['bcd'] + [1.0, -1.0]
@@ -1001,6 +1048,26 @@ def obs_other(case):
             after = szaff_py(shape, zr, o['flip'])
             o['c2'] = c1 if (hdr is not None and c1) else my_allclose(A, after, rtol, atol)
         img = K(data, A, header=hdr)
+        if case.get('edit'):
+            if case['edit'].get('reload_first'):
+                img, _ = save_load(K, img)
+            apply_edit(img, case['edit'])
+            A = np.array(img.affine)
+            o['at_save'] = A
+            h0 = img.header
+            best0 = np.array(h0.get_best_affine())
+            c1 = my_allclose(A, best0, rtol, atol)
+            o.update(hashdr=True, c1=c1, best0=best0)
+            if cls != 'mgh':
+                o['pix0'] = [int(x) for x in np.asarray(h0['pixdim'][1:4]).astype(np.float32).view(np.uint32)]
+                o['dims0'] = [int(x) for x in h0.get_data_shape()]
+                zr = [float(np.float32(z)) for z in col_norms(A)]
+                o['c2'] = c1 if c1 else my_allclose(A, szaff_py(shape, zr, o['flip']), rtol, atol)
+        if cls == 'mgh':
+            hh = img.header
+            o['c_save'] = my_allclose(np.array(img.affine), np.array(hh.get_best_affine()), rtol, atol)
+            o['pre_fields'] = bytes(np.asarray(hh['delta']).tobytes() + np.asarray(hh['Mdc']).tobytes()
+                                    + np.asarray(hh['Pxyz_c']).tobytes())
         if case.get('twostep'):
             # an image with another affine is saved to the same file names first
             prev = np.array([float.fromhex(x) for x in case['twostep']]).reshape(4, 4)
@@ -1010,6 +1077,8 @@ def obs_other(case):
         o['loaded_shape'] = [int(x) for x in loaded.shape]
         lh = loaded.header
         if cls == 'mgh':
+            o['post_fields'] = bytes(np.asarray(lh['delta']).tobytes() + np.asarray(lh['Mdc']).tobytes()
+                                     + np.asarray(lh['Pxyz_c']).tobytes())
             o['delta'] = [float(x) for x in lh['delta']]
             o['Mdc'] = np.array(lh['Mdc'], dtype=np.float64)
             o['Pc'] = [float(x) for x in lh['Pxyz_c']]
@@ -1053,7 +1122,7 @@ def obs_other(case):
 
 def pred_other(case, o):
     cls = case['cls']
-    A = A_of(case)
+    A = A_eff(case, o)
     L = o['loaded_affine']
     shortcut = o['hashdr'] and o['c1']
     if cls == 'ana':
@@ -1116,10 +1185,20 @@ def frac_aff(M):
 def lines_other(cid, case, o):
     """Model lines (+ expected strings, or numeric comparators) of one Analyze/SPM/MGH case."""
     cls = case['cls']
-    A = A_of(case)
+    A = A_eff(case, o)
     out = []
     num = []
     if cls == 'mgh':
+        norms_ = np.array(col_norms(A))
+        sh_ = np.array(case['shape'][:3], dtype=float)
+        cras_ = A[:3, :3] @ (sh_ / 2.0) + A[:3, 3]
+        w_ = max(float((np.abs(np.array(o['delta']) - norms_) / norms_).max()),
+                 float(np.abs(o['Mdc'].T - A[:3, :3] / norms_).max()),
+                 float((np.abs(np.array(o['Pc']) - cras_)
+                        / np.maximum(np.abs(A[:3, :3]) @ (sh_ / 2.0) + np.abs(A[:3, 3]), 1e-300)).max())) / EPS32
+        # a rewrite from an unchanged affine is idempotent, so both observations can hold at once
+        out.append((f"{cid}.u upd 1 {int(o['c_save'])}", ('upd', o['pre_fields'] == o['post_fields'], w_ <= 1.5),
+                    'MGH to_file_map: update_header rewrites delta/Mdc/Pxyz_c from the affine at save time unless allclose'))
         # numeric tie of the stored fields to the formulas of ModelR.mgh_affine2header (1.5 ulp32);
         # only when the header was rewritten
         if not (o['hashdr'] and o['c1']):
@@ -1176,6 +1255,13 @@ def cmp_model(exp, got):
     if isinstance(exp, str):
         return None if exp == got else (got[:200], exp[:200])
     kind = exp[0]
+    if kind == 'upd':       # (kept: saved fields == fields before save, rewritten: fields match the affine at save)
+        if got == 'ok keep':
+            return None if exp[1] else (got, 'saved header fields differ from those before the save')
+        if got == 'ok rewrite':
+            return None if exp[2] else (got, 'saved header fields are not those of the affine at save time'
+                                        + (' (kept unchanged)' if exp[1] else ''))
+        return (got, 'ok keep|rewrite')
     if not got.startswith('ok '):
         return (got[:120], 'numeric ' + kind)
     parts = got[3:].split()
@@ -1272,6 +1358,32 @@ def allclose_cases(chk, lines, expect, pairs):
         chk.count(tag='decision:allclose')
 
 
+def edit_scenarios(chk, core, rand):
+    """(affine, class, edit) triples: modify after construction / after loading, then save."""
+    pool = core[::6] + rand[:max(6, len(rand) // 9)]
+    perms = [a for a in core if a['kind'] == 'perm']
+    hexA = lambda a: [float(x).hex() for x in a['A'].ravel()]
+    out = []
+    k = 0
+    for i, a in enumerate(pool):
+        other = pool[(i + 3) % len(pool)]
+        common_modes = [dict(kind='aff_all', A1=hexA(other)), dict(kind='aff_t', dx=1000.0), dict(kind='aff_t', dx=5.0),
+                        dict(kind='aff_col', f=1.75), dict(kind='hdr_zooms', z=[1.5, 2.5, 3.5])]
+        for cls in CLSNAMES:
+            modes = list(common_modes)
+            if cls == 'mgh':
+                modes.append(dict(kind='hdr_pxyz', c=[1.0, 2.0, 3.0]))
+            if cls in ('n1', 'n1p', 'n2', 'n2p'):
+                modes.append(dict(kind='set_sform', A1=hexA(other), code=1 + k % 5))
+                modes.append(dict(kind='set_qform', A1=hexA(perms[(2 * k + 1) % len(perms)]), code=1 + k % 5))
+            for j in (k % len(modes), (k + 3) % len(modes)):
+                e = dict(modes[j])
+                e['reload_first'] = bool((k + j) % 2)
+                out.append((a, cls, e))
+            k += 1
+    return out
+
+
 # ----------------------------------------------------------------------------- the check
 def handle_pred(chk, case, pred, known, impl_out=None, model_out=None):
     """Route one direct-predicate outcome.  Returns True when the predicate held."""
@@ -1299,7 +1411,9 @@ def run(chk: Check):
                 'far with the determinant of the other sign); histories of 2-6 set_sform/set_qform calls on ONE header and '
                 'on one image or a reused header (determinants of both signs, code-only and affine-only calls) followed by '
                 'the getters / save / load; LR-flipped volume-centred affines with zooms not representable in float32 '
-                '(0.9, 1.1, 2.3) for the Analyze family, also saved over an existing image with another affine; BytesIO '
+                '(0.9, 1.1, 2.3) for the Analyze family, also saved over an existing image with another affine; '
+                'modify-after-construction-or-load then save, every class (in-place img.affine edits, header zoom / Pxyz_c '
+                'edits, image set_sform / set_qform): the reload must be the affine the image had at save time; BytesIO '
                 'file maps plus real files under the work directory.  A case is non-trivial when the affine is not a diagonal matrix; '
                 'distinct by (class, affine bits, header spec)')
     chk.assumptions = ['affines are finite, non-singular (cond < 200 for the general kind), shapes 3-D with dims <= 64',
@@ -1328,18 +1442,24 @@ def run(chk: Check):
 
     # ---- NIfTI constructor / save / load
     n_refused = 0
-    for i, scen in enumerate(nifti_scenarios(chk, core, rand)):
+    edits = edit_scenarios(chk, core, rand)
+    nscen = list(nifti_scenarios(chk, core, rand))
+    nscen += [(a, cls, None, [3, 4, 5], e) for (a, cls, e) in edits if cls in ('n1', 'n1p', 'n2', 'n2p')]
+    for i, scen in enumerate(nscen):
         a, cls, spec = scen[:3]
         shape = scen[3] if len(scen) > 3 else ([2, 3, 4] if i % 5 else [3, 5, 2])
         if spec is not None and i % 7 == 0 and len(scen) == 3:
             spec = dict(spec, hshape=[4, 4, 4])
         case = case_of(a, scn='nifti', cls=cls, spec=spec, shape=shape)
+        if len(scen) > 4:
+            case['edit'] = scen[4]
         if i % 97 == 5:
             case['via'] = [chk.workdir, cls]
         o = obs_nifti(case)
         nontriv = bool(np.count_nonzero(a['A'][:3, :3] - np.diag(np.diag(a['A'][:3, :3]))))
-        chk.count(key=(cls, tuple(case['A']), str(spec)) if nontriv else None,
-                  tag=f"nifti:{cls}:{a['kind']}:{'hdr' if spec else 'nohdr'}",
+        chk.count(key=(cls, tuple(case['A']), str(spec), str(case.get('edit'))) if nontriv else None,
+                  tag=(f"nifti:{cls}:{a['kind']}:{'hdr' if spec else 'nohdr'}" if not case.get('edit') else
+                       f"edit-then-save:{cls}:{case['edit']['kind']}:{'loaded' if case['edit']['reload_first'] else 'new'}"),
                   sample=case if i in (7, 500) else None)
         if o['refused']:
             n_refused += 1
@@ -1356,7 +1476,7 @@ def run(chk: Check):
         pred, known = pred_nifti(case, o)
         cid = f'n{i}'
         preds[cid] = handle_pred(chk, case, pred, known, impl_out=str(o['loaded_affine'].tolist()))
-        for (ln, exp, what) in lines_nifti(cid, case, o, kernel_oracle(a['A'])):
+        for (ln, exp, what) in lines_nifti(cid, case, o, None):
             lines.append(ln)
             expect[ln.split()[0]] = (exp, what, case)
         # loaded affine = fetch of the stored rows (codec)
@@ -1438,9 +1558,13 @@ def run(chk: Check):
         for cls in ('spm99', 'spm2'):
             twostep[len(others)] = core[(3 * k + 1) % len(core)]['A']
             others.append((fa, cls, None))
-    for i, (a, cls, bkind) in enumerate(others):
+    others += [(a, cls, None, e) for (a, cls, e) in edits if cls in ('ana', 'spm99', 'spm2', 'mgh')]
+    for i, oscen in enumerate(others):
+        a, cls, bkind = oscen[:3]
         shape = [3, 4, 5] if a['kind'] == 'fallback' else [1 + (i * 7) % 9, 1 + (i * 3) % 6, 1 + (i * 5) % 8]
         case = case_of(a, scn='other', cls=cls, bkind=bkind, shape=shape)
+        if len(oscen) > 3:
+            case['edit'] = oscen[3]
         if bkind is not None and i % 6 == 0 and a['kind'] != 'fallback':
             case['hshape'] = [2, 2, 2]
         if i % 89 == 3:
@@ -1450,8 +1574,10 @@ def run(chk: Check):
             case['twostep'] = [float(x).hex() for x in twostep[i].ravel()]
         o = obs_other(case)
         nontriv = bool(np.count_nonzero(a['A'][:3, :3] - np.diag(np.diag(a['A'][:3, :3]))))
-        chk.count(key=(cls, tuple(case['A']), str(bkind)) if nontriv else None,
-                  tag=f"{cls}:{a['kind']}:{'hdr' if bkind else 'nohdr'}", sample=case if i in (11,) else None)
+        chk.count(key=(cls, tuple(case['A']), str(bkind), str(case.get('edit'))) if nontriv else None,
+                  tag=(f"{cls}:{a['kind']}:{'hdr' if bkind else 'nohdr'}" if not case.get('edit') else
+                       f"edit-then-save:{cls}:{case['edit']['kind']}:{'loaded' if case['edit']['reload_first'] else 'new'}"),
+                  sample=case if i in (11,) else None)
         chk.tagc('shortcut:' + ('fired' if (o['hashdr'] and o['c1']) else 'no'))
         pred, known = pred_other(case, o)
         cid = f'o{i}'
